@@ -51,3 +51,46 @@ def check_inc_iv(prog, chk, rule="R.nonce-function"):
     chk.ob(rule, "Packetizer._inc_iv_counter", ok, f.loc,
            "returns %s" % detail[:200])
     return ok
+
+
+def check_compression_activation(prog, chk, rule):
+    """Every key change installs a fresh (de)compressor in both directions under the
+    same condition, and delayed zlib is switched on at authentication only."""
+    from ..core.flow import node_calls
+    from ..core.model import walk_no_defs
+    # R8 compression switched on symmetrically on every key change ----------------------------
+    for fname, side, setter in (("_activate_inbound", "remote", "set_inbound_compressor"),
+                                ("_activate_outbound", "local", "set_outbound_compressor")):
+        f = prog.func("Transport." + fname)
+        cvars = [unparse(n.targets[0]) for n in walk_no_defs(f.node) if isinstance(n, ast.Assign)
+                 and unparse(n.value).startswith("self._compression_info[self.%s_compression]" % side)]
+        if len(cvars) != 1:
+            raise AnalysisError("Transport." + fname, "compressor variable not found")
+        cv = cvars[0]
+        delayed = "self.%s_compression != 'zlib@openssh.com'" % side
+        cases = (("plain-zlib", {"%s is not None" % cv: True, delayed: True}, True),
+                 ("delayed-zlib-after-auth", {"%s is not None" % cv: True, delayed: False, "self.authenticated": True}, True),
+                 ("delayed-zlib-before-auth", {"%s is not None" % cv: True, delayed: False, "self.authenticated": False}, False),
+                 ("none", {"%s is not None" % cv: False}, False))
+        for lab, env, want in cases:
+            fl = Flow(prog, f, env=env)
+            st_ = [n for (n, c) in fl.nodes_with_call(attr=setter)]
+            if want:
+                ok = len(st_) == 1 and fl.exit_dominated(guard_nodes=st_)
+                if ok:
+                    c = [c for c in node_calls(st_[0]) if M.is_call(c, attr=setter)][0]
+                    ok = len(c.args) == 1 and unparse(c.args[0]) == "%s()" % cv
+            else:
+                ok = not st_
+            chk.ob(rule, "%s:%s" % (fname, lab), ok, f.loc,
+                   "%s %s (a fresh engine per key change, so both ends restart their zlib streams together)" % (
+                       setter, "installed on every path" if want else "not installed"))
+    at = prog.func("Transport._auth_trigger")
+    for side, setter, idx in (("local", "set_outbound_compressor", 0), ("remote", "set_inbound_compressor", 1)):
+        fl = Flow(prog, at, env={"self.%s_compression == 'zlib@openssh.com'" % side: True})
+        st_ = [n for (n, c) in fl.nodes_with_call(attr=setter)]
+        ok = len(st_) == 1 and fl.exit_dominated(guard_nodes=st_)
+        fl2 = Flow(prog, at, env={"self.%s_compression == 'zlib@openssh.com'" % side: False})
+        ok = ok and not fl2.nodes_with_call(attr=setter)
+        chk.ob(rule, "_auth_trigger:%s" % side, ok, at.loc, "delayed zlib switched on at authentication, only then")
+
